@@ -820,7 +820,10 @@ class Executor:
                 q = z3.If(y > 0, x / y, (-x) / (-y))
             if isinstance(op, ast.FloorDiv):
                 return VInt(q)
-            return VInt(x - y * q)
+            # Python's % for a positive modulus is SMT-LIB mod (the solver's own mod reasoning works on this form)
+            if z3.is_int_value(ys) and ys.as_long() > 0:
+                return VInt(x % y)
+            return VInt(z3.If(y > 0, x % y, -((-x) % (-y))))
         if isinstance(op, ast.Pow):
             bs = z3.simplify(to_float(b))
             if fl or True:
@@ -1232,9 +1235,46 @@ class Executor:
         for f in s2.pc[len(st.pc):]:
             st.pc.append(f)
         rng = z3.And(*conds) if len(conds) > 1 else conds[0]
+        if which == "all" and getattr(self.c, "options", {}).get("select_patterns"):
+            # explicit triggers: every array read whose indices are exactly the bound variables is an alternative pattern
+            # (the automatic choice tends to pick one read only, e.g. of an updated array, and misses instances)
+            pats = self.select_patterns(z3.Implies(rng, body), bound)
+            if pats:
+                return VBool(z3.ForAll(bound, z3.Implies(rng, body), patterns=pats))
         if which == "all":
             return VBool(z3.ForAll(bound, z3.Implies(rng, body)))
         return VBool(z3.Exists(bound, z3.And(rng, body)))
+
+    def select_patterns(self, f, bound):
+        ids = {b.get_id() for b in bound}
+        found, seen = [], set()
+
+        def is_bound_chain(t):
+            # Select(Select(A, b0), b1) ... with every index a distinct bound variable, A free of bound variables and lambdas
+            idx = []
+            while z3.is_app(t) and t.decl().kind() == z3.Z3_OP_SELECT:
+                idx.append(t.arg(1))
+                t = t.arg(0)
+            if not idx or not all(z3.is_const(i) and i.get_id() in ids for i in idx):
+                return False
+            if len({i.get_id() for i in idx}) != len(bound):
+                return False
+            return z3.is_const(t) and t.decl().kind() == z3.Z3_OP_UNINTERPRETED
+
+        def walk(t):
+            if t.get_id() in seen:
+                return
+            seen.add(t.get_id())
+            if z3.is_quantifier(t):
+                return
+            if z3.is_app(t):
+                if is_bound_chain(t):
+                    found.append(t)
+                    return
+                for ch in t.children():
+                    walk(ch)
+        walk(f)
+        return found[:4]
 
     def cast(self, et, v, st, node, spec):
         if et == "f":
